@@ -84,9 +84,10 @@ package document
 
 //@ func (*TemplateEngine).createTextParagraph
 //@ props C17
+//@ ignore-ensures deepcopy
 //@ requires te != nil && originalPara != nil
 //@ modifies nothing
-//@ ensures fresh(result)
+//@ ensures fresh(result) && !isElem(result)
 
 // ---- tables ---------------------------------------------------------------------------------------------
 // tableRoot(t, b): the table object (or the array cell holding it) and its row array lie at or above b.
@@ -310,8 +311,10 @@ package document
 //@ requires te != nil && doc != nil && data != nil && above(doc.parts, B)
 //@ modifies map:string:[]byte
 //@ ensures unchangedBelow(B)
+//@ ensures forall k string :: has(doc.parts, k) == old(has(doc.parts, k))
 //@ loop 1
 //@   invariant unchangedBelow(B) && doc.parts != nil
+//@   invariant forall k string :: has(doc.parts, k) == old(has(doc.parts, k))
 
 // applyRenderedContentToDocument appends fresh paragraphs to the body of the document it is given.
 //@ func (*TemplateEngine).applyRenderedContentToDocument
@@ -345,7 +348,7 @@ package document
 //@   invariant closedRows(B)
 //@   invariant closedCells(B)
 //@   invariant closedTables(B)
-//@   invariant cap(newElements) == 0 || arr(newElements) >= old(allocBound())
+//@   invariant freshArr(newElements)
 //@   invariant elemsOwned(newElements, B)
 //@   invariant 0 <= i && i <= len(elements)
 //@ loop 2
@@ -353,7 +356,7 @@ package document
 //@   invariant closedRows(B)
 //@   invariant closedCells(B)
 //@   invariant closedTables(B)
-//@   invariant cap(newElements) == 0 || arr(newElements) >= old(allocBound())
+//@   invariant freshArr(newElements)
 //@   invariant elemsOwned(newElements, B)
 //@   invariant 0 <= i && i <= len(elements)
 //@   invariant i < len(elements)
@@ -362,64 +365,212 @@ package document
 //@   invariant closedRows(B)
 //@   invariant closedCells(B)
 //@   invariant closedTables(B)
-//@   invariant cap(newElements) == 0 || arr(newElements) >= old(allocBound())
+//@   invariant freshArr(newElements)
 //@   invariant elemsOwned(newElements, B)
 //@   invariant 0 <= i && i <= len(elements)
 //@   invariant i < len(elements) && i <= j && j <= len(elements) && loopEndIndex == -1
-//@   invariant cap(templateElements) == 0 || arr(templateElements) >= old(allocBound())
+//@   invariant freshArr(templateElements)
 //@   invariant forall k int :: {templateElements[k]} 0 <= k && k < len(templateElements) ==> elemOwned(templateElements[k], B)
 //@ loop 4
 //@   invariant unchangedHeap()
 //@   invariant closedRows(B)
 //@   invariant closedCells(B)
 //@   invariant closedTables(B)
-//@   invariant cap(newElements) == 0 || arr(newElements) >= old(allocBound())
+//@   invariant freshArr(newElements)
 //@   invariant elemsOwned(newElements, B)
 //@   invariant 0 <= i && i <= len(elements)
 //@   invariant i < len(elements) && i <= j && j < len(elements) && loopEndIndex == -1
-//@   invariant cap(templateElements) == 0 || arr(templateElements) >= old(allocBound())
+//@   invariant freshArr(templateElements)
 //@   invariant forall k int :: {templateElements[k]} 0 <= k && k < len(templateElements) ==> elemOwned(templateElements[k], B)
 //@ loop 5
 //@   invariant unchangedHeap()
 //@   invariant closedRows(B)
 //@   invariant closedCells(B)
 //@   invariant closedTables(B)
-//@   invariant cap(newElements) == 0 || arr(newElements) >= old(allocBound())
+//@   invariant freshArr(newElements)
 //@   invariant elemsOwned(newElements, B)
 //@   invariant 0 <= i && i <= len(elements)
 //@   invariant 0 <= loopEndIndex && loopEndIndex < len(elements) && i <= loopEndIndex
-//@   invariant cap(templateElements) == 0 || arr(templateElements) >= old(allocBound())
+//@   invariant freshArr(templateElements)
 //@   invariant forall k int :: {templateElements[k]} 0 <= k && k < len(templateElements) ==> elemOwned(templateElements[k], B)
 //@ loop 6
 //@   invariant unchangedHeap()
 //@   invariant closedRows(B)
 //@   invariant closedCells(B)
 //@   invariant closedTables(B)
-//@   invariant cap(newElements) == 0 || arr(newElements) >= old(allocBound())
+//@   invariant freshArr(newElements)
 //@   invariant elemsOwned(newElements, B)
 //@   invariant 0 <= i && i <= len(elements)
 //@   invariant 0 <= loopEndIndex && loopEndIndex < len(elements) && i <= loopEndIndex
-//@   invariant cap(templateElements) == 0 || arr(templateElements) >= old(allocBound())
+//@   invariant freshArr(templateElements)
 //@   invariant forall k int :: {templateElements[k]} 0 <= k && k < len(templateElements) ==> elemOwned(templateElements[k], B)
 //@ loop 7
 //@   invariant unchangedHeap()
 //@   invariant closedRows(B)
 //@   invariant closedCells(B)
 //@   invariant closedTables(B)
-//@   invariant cap(newElements) == 0 || arr(newElements) >= old(allocBound())
+//@   invariant freshArr(newElements)
 //@   invariant elemsOwned(newElements, B)
 //@   invariant 0 <= i && i <= len(elements)
 //@   invariant 0 <= loopEndIndex && loopEndIndex < len(elements) && i <= loopEndIndex
-//@   invariant cap(templateElements) == 0 || arr(templateElements) >= old(allocBound())
+//@   invariant freshArr(templateElements)
 //@   invariant forall k int :: {templateElements[k]} 0 <= k && k < len(templateElements) ==> elemOwned(templateElements[k], B)
 //@ loop 8
 //@   invariant unchangedHeap()
 //@   invariant closedRows(B)
 //@   invariant closedCells(B)
 //@   invariant closedTables(B)
-//@   invariant cap(newElements) == 0 || arr(newElements) >= old(allocBound())
+//@   invariant freshArr(newElements)
 //@   invariant elemsOwned(newElements, B)
 //@   invariant 0 <= i && i <= len(elements)
 //@   invariant 0 <= loopEndIndex && loopEndIndex < len(elements) && i <= loopEndIndex
-//@   invariant cap(templateElements) == 0 || arr(templateElements) >= old(allocBound())
+//@   invariant freshArr(templateElements)
 //@   invariant forall k int :: {templateElements[k]} 0 <= k && k < len(templateElements) ==> elemOwned(templateElements[k], B)
+
+// ---- picture placeholders -------------------------------------------------------------------------------
+// imagesOK: the picture table of the data holds no nil entry (what SetImage/SetImageFromData/SetImageWithDetails store).
+//@ spec imagesOK(data *TemplateData) bool = data != nil && forall k string :: has(data.Images, k) ==> data.Images[k] != nil
+// imgDoc: what the picture allocator needs from the document (containers exist, media names free: property C10)
+// plus its containers in the region (imgOwned, zz_contracts_verif_image.go).
+//@ spec imgDoc(d *Document, b int) bool = docParts(d) && mediaFresh(d) && imgOwned(d, b)
+
+// processImagePlaceholdersInParagraph returns the paragraph itself or fresh paragraphs; pictures are added to
+// the document given (its part map, relationship list, content types, counter), nothing below B is written.
+// assume-no-panic: the positions of the placeholders come from strings.Index on text a regular expression
+// matched; that they are in range is a fact about regexp (property C16), not shown here.
+//@ func (*TemplateEngine).processImagePlaceholdersInParagraph
+//@ props C17
+//@ ghost B int
+//@ assume-no-panic
+//@ ignore-ensures deepcopy, drawingIs
+//@ requires te != nil && para != nil && imagesOK(data) && imgDoc(doc, B)
+//@ modifies Document.nextImageID, map:string:[]byte, Relationships.Relationships, []Relationship, Document.contentTypes, ContentTypes.Defaults, []Default, ImageInfo.Config, ImageConfig.AltText, ImageConfig.Title
+//@ ensures unchangedBelow(B)
+//@ ensures imgDoc(doc, B)
+//@ ensures err == nil ==> freshArr(result0) && (forall k int :: 0 <= k && k < len(result0) ==> isPara(result0[k]) && ref(result0[k]) != nil && (result0[k].(*Paragraph) == para || (fresh(result0[k]) && !isElem(result0[k].(*Paragraph)))))
+//@ loop 1
+//@   invariant 0 <= #i && #i <= len(para.Runs) && unchangedHeap()
+//@   decreases len(para.Runs) - #i
+//@ loop 2
+//@   invariant 0 <= #i && #i <= len(originalMatches) && unchangedHeap() && freshArr(allMatches)
+//@   decreases len(originalMatches) - #i
+//@ loop 3
+//@   invariant 0 <= #i && #i <= len(renderedMatches) && unchangedHeap() && freshArr(allMatches)
+//@   decreases len(renderedMatches) - #i
+//@ loop 4
+//@   invariant 0 <= #i && #i <= len(allMatches)
+//@   invariant unchangedBelow(B)
+//@   invariant imgDoc(doc, B)
+//@   invariant unchangedExcept("Document.nextImageID", "map:string:[]byte", "Relationships.Relationships", "[]Relationship", "Document.contentTypes", "ContentTypes.Defaults", "[]Default", "ImageInfo.Config", "ImageConfig.AltText", "ImageConfig.Title")
+//@   invariant freshArr(result) && (forall k int :: 0 <= k && k < len(result) ==> isPara(result[k]) && ref(result[k]) != nil && fresh(result[k]) && !isElem(result[k].(*Paragraph)))
+//@   decreases len(allMatches) - #i
+
+// processImagePlaceholdersInTable replaces paragraphs of the cells of the table it is given (cells reached
+// from the table: in the region) by the paragraph itself or fresh ones. Nested tables are not visited.
+// assume-no-panic: the paragraph list of a cell is replaced while it is being ranged over.
+//@ func (*TemplateEngine).processImagePlaceholdersInTable
+//@ props C17
+//@ ghost B int
+//@ assume-no-panic
+//@ requires te != nil && tableRoot(table, B) && closedAbove(B) && imagesOK(data) && imgDoc(doc, B)
+//@ modifies TableCell.Paragraphs, Paragraph.*, Document.nextImageID, map:string:[]byte, Relationships.Relationships, []Relationship, Document.contentTypes, ContentTypes.Defaults, []Default, ImageInfo.Config, ImageConfig.AltText, ImageConfig.Title
+//@ ensures unchangedBelow(B)
+//@ ensures closedAbove(B)
+//@ ensures tableRoot(table, B) && imgDoc(doc, B)
+//@ ensures forall p *Paragraph :: !isElem(p) && allocated(p) ==> unchangedStruct(p)
+//@ loop 1
+//@   invariant unchangedBelow(B)
+//@   invariant closedRows(B)
+//@   invariant closedCells(B)
+//@   invariant closedTables(B)
+//@   invariant tableRoot(table, B) && imgDoc(doc, B)
+//@   invariant forall p *Paragraph :: !isElem(p) && allocated(p) ==> unchangedStruct(p)
+//@ loop 2
+//@   invariant unchangedBelow(B)
+//@   invariant closedRows(B)
+//@   invariant closedCells(B)
+//@   invariant closedTables(B)
+//@   invariant tableRoot(table, B) && imgDoc(doc, B)
+//@   invariant forall p *Paragraph :: !isElem(p) && allocated(p) ==> unchangedStruct(p)
+//@ loop 3
+//@   invariant unchangedBelow(B)
+//@   invariant closedRows(B)
+//@   invariant closedCells(B)
+//@   invariant closedTables(B)
+//@   invariant tableRoot(table, B) && imgDoc(doc, B)
+//@   invariant forall p *Paragraph :: !isElem(p) && allocated(p) ==> unchangedStruct(p)
+//@   invariant cell != nil && elemOf(cell, "TableCell") && above(cell, B) && live(cell)
+//@ loop 4
+//@   invariant unchangedBelow(B)
+//@   invariant closedRows(B)
+//@   invariant closedCells(B)
+//@   invariant closedTables(B)
+//@   invariant tableRoot(table, B) && imgDoc(doc, B)
+//@   invariant forall p *Paragraph :: !isElem(p) && allocated(p) ==> unchangedStruct(p)
+//@   invariant cell != nil && elemOf(cell, "TableCell") && above(cell, B) && live(cell)
+//@   invariant freshArr(newParagraphs)
+
+// OTHERS: top-level paragraph and table objects are separately allocated; a call on one element leaves the
+// others' runs / rows alone (what keeps docOwned of the remaining elements across the loop).
+
+// processImagePlaceholders splices fresh paragraphs into the element list of the document it is given.
+// assume-no-panic: the element list is re-sliced with indices of the list it is ranging over.
+//@ func (*TemplateEngine).processImagePlaceholders
+//@ props C17
+//@ ghost B int
+//@ assume-no-panic
+//@ requires te != nil && docOwned(doc, B) && closedAbove(B) && imagesOK(data) && imgDoc(doc, B)
+//@ modifies Body.Elements, cell:any, TableCell.Paragraphs, Paragraph.*, Document.nextImageID, map:string:[]byte, Relationships.Relationships, []Relationship, Document.contentTypes, ContentTypes.Defaults, []Default, ImageInfo.Config, ImageConfig.AltText, ImageConfig.Title
+//@ ensures unchangedBelow(B)
+//@ loop 1
+//@   invariant unchangedBelow(B)
+//@   invariant closedRows(B)
+//@   invariant closedCells(B)
+//@   invariant closedTables(B)
+//@   invariant doc != nil && above(doc, B) && doc.Body != nil && above(doc.Body, B) && above(doc.Body.Elements, B) && above(doc.parts, B)
+//@   invariant elemsOwned(doc.Body.Elements, B)
+//@   invariant forall j int :: {old(doc.Body.Elements)[j]} 0 <= j && j < old(len(doc.Body.Elements)) ==> elemOwned(old(doc.Body.Elements)[j], B)
+//@   invariant imgDoc(doc, B)
+
+// replaceVariablesInDocument: the whole substitution pass on the (cloned) document.
+//@ func (*TemplateEngine).replaceVariablesInDocument
+//@ props C17
+//@ ghost B int
+//@ assume-no-panic
+//@ requires te != nil && docOwned(doc, B) && closedAbove(B) && imagesOK(data) && imgDoc(doc, B)
+//@ modifies Body.Elements, cell:any, Table.Rows, TableRow.*, TableCell.Paragraphs, Paragraph.*, Document.nextImageID, map:string:[]byte, Relationships.Relationships, []Relationship, Document.contentTypes, ContentTypes.Defaults, []Default, ImageInfo.Config, ImageConfig.AltText, ImageConfig.Title
+//@ ensures unchangedBelow(B)
+//@ loop 1
+//@   invariant unchangedBelow(B)
+//@   invariant closedRows(B)
+//@   invariant closedCells(B)
+//@   invariant closedTables(B)
+//@   invariant docOwned(doc, B)
+//@   invariant imgDoc(doc, B)
+
+// ---- the two rendering entry points -----------------------------------------------------------------------
+// baseDocOK: what every document built by New/Open/the Add* API satisfies and cloneDocument relies on.
+//@ spec baseDocOK(d *Document) bool = d.Body != nil && elemsOK(d.Body.Elements) && sectRefsOK(d.Body.Elements) && mediaFresh(d) && d.nextImageID >= 0
+// cacheOK: the cache holds no nil template (LoadTemplate/LoadTemplateFromDocument store the template they built).
+//@ spec cacheOK(te *TemplateEngine) bool = forall k string :: has(te.cache, k) ==> te.cache[k] != nil && (te.cache[k].BaseDoc != nil ==> baseDocOK(te.cache[k].BaseDoc))
+
+// RenderTemplateToDocument / RenderToDocument: NOTHING that existed before the call is written - not the engine
+// and its cache, not the template, its blocks, its parents, not the base document (body, paragraphs, tables,
+// cells, runs, parts, relationships, content types, styles, numbering, footnotes), not the data (variable, list,
+// condition and picture tables, the picture configurations). The result is a new document.
+// B is bound to the allocation counter at entry: "below B" is "existed before the call".
+//@ func (*TemplateEngine).RenderToDocument
+//@ props C17
+//@ ghost B int = allocBound()
+//@ requires te != nil && tplErrVars() && cacheOK(te) && imagesOK(data)
+//@ modifies nothing
+//@ ensures err == nil ==> fresh(result0)
+//@ ensures err != nil ==> result0 == nil
+
+//@ func (*TemplateEngine).RenderTemplateToDocument
+//@ props C17
+//@ ghost B int = allocBound()
+//@ requires te != nil && tplErrVars() && cacheOK(te) && imagesOK(data)
+//@ modifies nothing
+//@ ensures err == nil ==> fresh(result0)
+//@ ensures err != nil ==> result0 == nil
